@@ -1172,9 +1172,6 @@ func checkExecuteFromSlave(reqCtx *util.RequestContext, c *SessionExecutor, sql 
 	// send sql `select ... for update [nowait/skip locked]`
 	// or `select ... in share mode [nowait/skip locked]` to master
 	if c.GetNamespace().CheckSelectLock {
-		if len(tokens) < 2 {
-			return true
-		}
 		// the lock clause is looked for at the end of the statement proper: comments that
 		// follow it (trace ids appended by drivers, "-- ..." remarks) must not hide it
 		words := strings.FieldsFunc(parser.TrimTrailingComments(sql), parser.IsSqlSep)
